@@ -122,17 +122,17 @@ func vbound(name string, quick, thorough int) int {
 	}
 	return quick
 }
-func vmode(m string)           {}
-func vsolver(name string)      {}
-func vand(a, b bool) bool      { return a && b }
-func vor(a, b bool) bool       { return a || b }
-func vnot(a bool) bool         { return !a }
-func vimplies(a, b bool) bool  { return !a || b }
-func vmaporder(on bool)        {}
-func vnote(s string)           {}
-func vconcrete(x int64) int64  { return x }
-func vfreeze()                 {}
-func veqstr(a, b string) bool  { return a == b }
+func vmode(m string)          {}
+func vsolver(name string)     {}
+func vand(a, b bool) bool     { return a && b }
+func vor(a, b bool) bool      { return a || b }
+func vnot(a bool) bool        { return !a }
+func vimplies(a, b bool) bool { return !a || b }
+func vmaporder(on bool)       {}
+func vnote(s string)          {}
+func vconcrete(x int64) int64 { return x }
+func vfreeze()                {}
+func veqstr(a, b string) bool { return a == b }
 
 type vtestingT interface {
 	Logf(format string, args ...interface{})
@@ -165,6 +165,12 @@ func vreplayRun(t vtestingT, path string, h func()) {
 	attempts := 1
 	if strings.Contains(rf.Label, "map-order") {
 		attempts = 1000
+	}
+	if vtier == "" {
+		vtier = os.Getenv("VERIF_TIER") // set once, before any goroutine of a concurrent replay reads it
+		if vtier == "" {
+			vtier = "quick"
+		}
 	}
 	if strings.Contains(rf.Label, "package-level state") {
 		// the engine saw a store into shared package state: confirm natively by running the same call on several
